@@ -304,3 +304,7 @@ pub mod unstable_net_report {
 
 #[cfg(any(test, feature = "test-utils"))]
 pub mod test_utils;
+
+#[cfg(feature = "verif-hooks")]
+#[doc(hidden)]
+pub mod verif_remote;
